@@ -15,14 +15,15 @@ Section Protocol.
   (* conditioners are constructor arguments of their dependents, hence created earlier *)
   Hypothesis conds_lt : forall j i, In i (conds j) -> i < j.
   Variable F : nat -> D -> P -> (nat -> P) -> P.
-  (* oracle contract: besides data and start value the optimiser of j reads only the conditioners of j *)
-  Hypothesis F_ext : forall j d p e1 e2, (forall i, In i (conds j) -> e1 i = e2 i) -> F j d p e1 = F j d p e2.
+  (* oracle contract: besides data and start value the optimiser of j reads only the parameters of j's ANCESTORS --
+     its conditioners, their conditioners, ... (functools.partial all the way down); `anc conds i j` *)
+  Hypothesis F_ext : forall j d p e1 e2, (forall i, anc conds i j -> e1 i = e2 i) -> F j d p e1 = F j d p e2.
   Variable p0 : nat -> P.
 
   (* every history of fit calls runs through: fuel n+1 suffices, the assertion in callback never fires *)
   Theorem C14_history_terminates : forall ops, (forall j d, In (j, d) ops -> j < n) ->
     exists s', run P D n conds F ops (init P D conds p0) = Ok s'.
-  Proof. exact (run_ok P D n conds conds_lt F F_ext p0). Qed.
+  Proof. exact (run_okT P D n conds conds_lt F p0 F_ext). Qed.
 
   (* dependency order: for every dependency DAG and every sequence of fit calls (any declaration and call
      order, re-fits included) in which every function was given data, each function ends with the result of
@@ -31,14 +32,27 @@ Section Protocol.
     run P D n conds F ops (init P D conds p0) = Ok s' ->
     (forall j, j < n -> last_data D ops j None <> None) ->
     forall j, j < n -> exists d p, last_data D ops j None = Some d /\ params s' j = F j d p (params s').
-  Proof. exact (history P D n conds conds_lt F F_ext p0). Qed.
+  Proof. exact (history_allT P D n conds conds_lt F p0 F_ext). Qed.
+
+  (* partial histories: the same for every function that was given data and ALL of whose ancestors were given data,
+     whether or not the remaining functions ever got any ("after all of those have been fitted" in the property) *)
+  Theorem C14_history_closed : forall ops s', (forall j d, In (j, d) ops -> j < n) ->
+    run P D n conds F ops (init P D conds p0) = Ok s' ->
+    forall j, j < n -> (forall a, dstar conds a j -> last_data D ops a None <> None) ->
+    exists d p, last_data D ops j None = Some d /\ params s' j = F j d p (params s').
+  Proof. exact (history_closed P D n conds conds_lt F p0 F_ext). Qed.
+
+  (* a function that is never handed data keeps its parameters through every history *)
+  Theorem C14_dataless_keeps_start : forall ops s s', run P D n conds F ops s = Ok s' ->
+    forall j, last_data D ops j (saved s j) = None -> params s' j = params s j.
+  Proof. exact (dataless_keeps_start P D n conds F). Qed.
 
   (* the subset test in callback is written the wrong way round and therefore never blocks (a function with
      two conditioners is fitted as soon as one of them is); C14_history holds of the code as it is *)
   Theorem C14_subset_test_vacuous : forall ops s, (forall j d, In (j, d) ops -> j < n) ->
     run P D n conds F ops (init P D conds p0) = Ok s ->
     forall k c, In c (conds k) -> subset_as_written conds (fitted_conds (add_fitted P D s k c) k) k = true.
-  Proof. exact (subset_test_vacuous P D n conds conds_lt F F_ext p0). Qed.
+  Proof. exact (subset_test_vacuousT P D n conds conds_lt F p0 F_ext). Qed.
 
   (* order independence, for an optimiser whose result does not depend on the start value ("within optimiser
      tolerance" in the property): two histories -- any call orders, re-fits, even different start parameters --
@@ -50,7 +64,7 @@ Section Protocol.
     (forall j, j < n -> last_data D ops1 j None <> None) ->
     (forall j, j < n -> last_data D ops1 j None = last_data D ops2 j None) ->
     forall j, j < n -> params s1 j = params s2 j.
-  Proof. exact (fun Fs => order_independent P D n conds conds_lt F F_ext Fs p0). Qed.
+  Proof. exact (fun Fs => order_independentT P D n conds conds_lt F F_ext Fs p0). Qed.
 
   (* ConditionalDistribution.fit hands the data to the dependence functions in parameter-name order; it is a
      history like any other *)
@@ -72,7 +86,7 @@ Section Protocol.
                                  forall q, admissible j q -> better j d (params s') (params s' j) q.
   Proof.
     intros ops s' B R All j Hj.
-    destruct (history P D n conds conds_lt F F_ext p0 ops s' B R All j Hj) as [d [p [E1 E2]]].
+    destruct (history_allT P D n conds conds_lt F p0 F_ext ops s' B R All j Hj) as [d [p [E1 E2]]].
     exists d. split; [exact E1|]. intros q Hq. rewrite E2. apply F_optimal. exact Hq.
   Qed.
 End Protocol.
@@ -97,6 +111,16 @@ Section Bounds.
     split; [exact (box_declared T neg_inf pos_inf leb bs)|].
     exact (fun Hn Hp p => declared_box T neg_inf pos_inf leb bs p Hn Hp).
   Qed.
+
+  (* which engine gets which arguments (DependenceFunction._fit + _fitting.py): curve_fit iff no constraints are
+     declared -- sigma iff weights, the converted box iff bounds; SLSQP with the raw bounds and all declared
+     constraints otherwise; constraints together with weights are refused (NotImplementedError) *)
+  Theorem C14_dispatch_paths : forall hw bounds,
+    dispatch T neg_inf pos_inf hw bounds None =
+      Call (mkcall T CurveFit hw (match bounds with Some bs => Some (convert_bounds T neg_inf pos_inf bs) | None => None end) None []) /\
+    (forall cs, dispatch T neg_inf pos_inf true bounds (Some cs) = NotImplemented) /\
+    (forall cs, dispatch T neg_inf pos_inf false bounds (Some cs) = Call (mkcall T MinimizeSLSQP false None bounds cs)).
+  Proof. exact (dispatch_paths T neg_inf pos_inf). Qed.
 
   (* within bounds and constraints: whichever engine the dispatch selects, a result that is feasible for the
      problem HANDED to scipy (oracle contract engine_feasible: curve_fit stays in its box, a successful SLSQP
@@ -132,9 +156,9 @@ Theorem C14_executable_model_is_generic : forall n ctbl ops,
 Proof. reflexivity. Qed.
 Theorem C14_history_executable : forall n ctbl ops s, table_ok ctbl = true ->
   (forall j d, In (j, d) ops -> j < n) -> run_tag n ctbl ops = Ok s ->
-  (forall j, j < n -> last_data nat ops j None <> None) ->
-  forall j, j < n -> exists d p, last_data nat ops j None = Some d /\
-                               params s j = Fitted j d p (map (params s) (lookup ctbl j)).
+  forall j, j < n -> (forall a, dstar (lookup ctbl) a j -> last_data nat ops a None <> None) ->
+  exists d p, last_data nat ops j None = Some d /\
+              params s j = Fitted j d p (map (params s) (ancestors (lookup ctbl) j)).
 Proof. exact history_tag. Qed.
 
 (* non-vacuity: a chain 0 <- 1 <- 2 where 2 also reads 0 (two conditioners); the dependents are given data
@@ -148,14 +172,24 @@ Example C14_nonvacuous :
              params s 0 = Fitted 0 10 (Fitted 0 9 (Start 0) []) [] /\
              (exists p, params s 1 = Fitted 1 8 p [params s 0]) /\
              (exists p, params s 2 = Fitted 2 7 p [params s 0; params s 1])) /\
-  convert_bounds nat 0 99 [(Some 1, None); (None, Some 5)] = ([1; 0], [99; 5]).
+  convert_bounds nat 0 99 [(Some 1, None); (None, Some 5)] = ([1; 0], [99; 5]) /\
+  (* a chain 0 <- 1 <- 2: function 2 names only 1 as conditioner but its optimiser reads 0 as well (through 1);
+     function 3 is never given data and keeps its start term; 2 still ends fitted against the final terms of 0 AND 1 *)
+  (ancestors (lookup [[]; [0]; [1]; [2]]) 2 = [0; 1] /\
+   exists s, run_tag 4 [[]; [0]; [1]; [2]] [(2, 5); (1, 6); (0, 7); (0, 8)] = Ok s /\ params s 3 = Start 3 /\
+             exists p, params s 2 = Fitted 2 5 p [params s 0; params s 1]).
 Proof.
-  split; [reflexivity|]. split; [|reflexivity]. eexists. split; [vm_compute; reflexivity|].
+  split; [reflexivity|]. split; [|split; [reflexivity|]].
+  2:{ split; [reflexivity|]. eexists. split; [vm_compute; reflexivity|]. split; [reflexivity|]. eexists. reflexivity. }
+  eexists. split; [vm_compute; reflexivity|].
   split; [reflexivity|]. split; [reflexivity|]. split; eexists; reflexivity.
 Qed.
 
 Print Assumptions C14_history_terminates.
 Print Assumptions C14_history.
+Print Assumptions C14_history_closed.
+Print Assumptions C14_dataless_keeps_start.
+Print Assumptions C14_dispatch_paths.
 Print Assumptions C14_subset_test_vacuous.
 Print Assumptions C14_order_independent.
 Print Assumptions C14_conditional_fit_loop.
